@@ -179,7 +179,46 @@ func pingOK(n *netceptor.Netceptor, target string, attempts int) (bool, string) 
 
 // joinProbe attaches a fresh well-behaved node to the target and requires that it can
 // ping w through the target within a bound counted in updates originated by the target.
+// advertProbe: the target must still answer Status() and must still learn a brand-new service
+// advertisement of the well-behaved node w within a bounded number of advertisement rounds.
+func (e *c07Env) advertProbe() (bool, string) {
+	e.gcount++
+	svc := fmt.Sprintf("p%d", e.gcount)
+	pc, err := e.w.ListenPacketAndAdvertise(svc, map[string]string{"probe": svc})
+	if err != nil {
+		return true, ""
+	}
+	defer pc.Close()
+	deadline := time.Now().Add(40 * time.Second)
+	for time.Now().Before(deadline) {
+		stc := make(chan bool, 1)
+		go func() {
+			st := e.t.Status()
+			found := false
+			for _, a := range st.Advertisements {
+				if a.NodeID == "w" && a.Service == svc {
+					found = true
+				}
+			}
+			stc <- found
+		}()
+		select {
+		case found := <-stc:
+			if found {
+				return true, ""
+			}
+		case <-time.After(20 * time.Second):
+			return false, "the target's Status() did not return within 20 s"
+		}
+		time.Sleep(100 * time.Millisecond)
+	}
+	return false, "the target did not learn a new service advertisement of its well-behaved neighbour w within 40 s (about 50 advertisement rounds)"
+}
+
 func (e *c07Env) joinProbe() (bool, string) {
+	if ok, why := e.advertProbe(); !ok {
+		return false, "adverts: " + why
+	}
 	e.gcount++
 	gid := fmt.Sprintf("g%d", e.gcount)
 	e.m.AddNode(gid)
@@ -240,6 +279,7 @@ func c07Child(_ string, args []string) {
 	e := &c07Env{transport: args[4], tOrigOnG: map[string]int{}}
 	c := mesh.DefaultConsts()
 	c.Idle = 30 * time.Second
+	c.ServiceAd = 800 * time.Millisecond
 	e.m = mesh.New(c, 1)
 	e.m.Net.Tap = func(te memnet.TapEvent) {
 		if te.Dir != "send" || te.From != c07Target || len(te.Data) == 0 || te.Data[0] != 1 || !strings.HasSuffix(te.Link, "-"+c07Target) {
@@ -336,12 +376,29 @@ func c07Child(_ string, args []string) {
 			}
 		}
 		h.Barrier()
+		var h2 hostile
+		if cs.SecondMsgs != nil {
+			if hh, err := e.open(name + "b"); err == nil {
+				h2 = hh
+				_ = h2.Send(wire.EncodeRoute(&wire.Route{NodeID: cs.SecondID, UpdateID: "hs2" + name, UpdateEpoch: 6, UpdateSequence: 1, Connections: map[string]float64{c07Target: 1}, ForwardingNode: cs.SecondID}))
+				h2.Barrier()
+				for _, m := range cs.SecondMsgs {
+					if err := h2.Send(m); err != nil {
+						break
+					}
+				}
+				h2.Barrier()
+			}
+		}
 		if cs.Flag {
 			// keep the session (and so the edge target->hostile) up across the 100 ms
 			// routing-table recalculation delay, so that semantic inputs are actually evaluated
 			time.Sleep(300 * time.Millisecond)
 		}
 		h.Close()
+		if h2 != nil {
+			h2.Close()
+		}
 		if d := os.Getenv("C07_DWELL_MS"); d != "" {
 			ms, _ := strconv.Atoi(d)
 			time.Sleep(time.Duration(ms) * time.Millisecond)
